@@ -97,6 +97,38 @@ def formats():
                             yield ('printf', fmt, tuple(args))
 
 
+PRELUDE_C = PRELUDE + (
+    # returns out of a counted loop
+    ('define', 'lp', ('p',), (('repeat', ('range', 'i', N(1), N(3)),
+                               (('if', ((('bin', '==', V('i'), N(2)), (('return', ('bin', '+', V('p'), V('i'))),)),), None),)),)),
+    # returns out of a light loop nested in a counted loop
+    ('define', 'll', (), (('repeat', ('count', N(2)), (('repeat', ('all', 'l', None), (('return', N(4)),)),)),)),
+    # writes output of its own before returning
+    ('define', 'pr', ('p',), (('print', V('p')), ('return', ('bin', '*', V('p'), N(2))))),
+    # a printf of its own, with positional and named fields, while the caller's printf is collecting values
+    ('define', 'pf', ('p',), (('printf', '<{} {x}>', (V('p'),)), ('return', N(8)))),
+    # conditional return, no loop
+    ('define', 'cr', ('p',), (('if', ((('bin', '>', V('p'), N(1)), (('return', N(1)),)),), None), ('return', N(0)))),
+)
+CALLS = [N(5), ('call', 'id', (N(9),)), ('call', 'lp', (N(10),)), ('call', 'll', ()), ('call', 'pr', (N(3),)),
+         ('call', 'pf', (N(6),)), ('call', 'cr', (N(2),)), ('call', 'lp', (('call', 'lp', (N(1),)),))]
+
+
+def call_programs(maxargs):
+    """printf / print / println whose values are calls to routines that return out of loops, write output of
+    their own or run a printf of their own — in every argument position."""
+    fmts = {1: ['{}', '{x}{}', '{0}'], 2: ['{} {}', '{1} {0}', '{} {hue} {}'], 3: ['{} {} {}', '{2} {0} {1}']}
+    for k in range(1, maxargs + 1):
+        for args in itertools.product(CALLS, repeat=k):
+            if not any(a[0] == 'call' for a in args):
+                continue
+            for f in fmts[k]:
+                yield PRELUDE_C + (('print', N(1)), ('printf', 'T:' + f, tuple(args)), ('print', N(2)), DEVICE,
+                                   ('printf', '{}', (N(3),)))
+            if k <= 2:
+                yield PRELUDE_C + tuple(('print', a) for a in args) + (('println', args[0]), DEVICE)
+
+
 def expected_regex(events):
     """documented text of the reference's output events as a regular expression,
     plus the content pieces (white space removed) for order-vs-device checks"""
@@ -183,6 +215,8 @@ def _worker(rank, n, part, maxlen):
     if part == 'A':
         al = alphabet()
         gen = (PRELUDE + seq for k in range(1, maxlen + 1) for seq in itertools.product(al, repeat=k))
+    elif part == 'C':
+        gen = call_programs(maxlen)
     else:
         gen = (PRELUDE + (('print', N(1)), f, ('print', N(2)), DEVICE, f) for f in formats())
     for i, prog in enumerate(gen):
@@ -212,8 +246,10 @@ def run(tier, seed):
     maxlen = 3 if tier == 'quick' else 4
     ra = par.run(_worker, ('A', maxlen))
     rb = par.run(_worker, ('B', 0))
+    rc = par.run(_worker, ('C', 2 if tier == 'quick' else 3))
+    assert sum(r['cases'] - r['undefined'] for r in rc) > 100
     viol = {}
-    for r in ra + rb:
+    for r in ra + rb + rc:
         for kind, (cnt, text, detail) in r['viol'].items():
             cur = viol.get(kind)
             if cur is None:
@@ -225,19 +261,20 @@ def run(tier, seed):
     for kind, (cnt, text, detail) in sorted(viol.items()):
         rep.violation(kind, '%s (%d cases), e.g. `%s`: %s' % (kind, cnt, text, detail),
                       {'script': text, 'detail': detail, 'cases': cnt})
-    na, nb = sum(r['cases'] for r in ra), sum(r['cases'] for r in rb)
+    na, nb = sum(r['cases'] for r in ra), sum(r['cases'] for r in rb + rc)
     rep.coverage = {
         'states': na + nb, 'transitions': na + nb,
-        'traces_validated_against_impl': na + nb - sum(r['undefined'] for r in ra + rb),
+        'traces_validated_against_impl': na + nb - sum(r['undefined'] for r in ra + rb + rc),
         'evaluations': na + nb,
-        'distinct_nontrivial': sum(r['texts'] for r in ra + rb),
+        'distinct_nontrivial': sum(r['texts'] for r in ra + rb + rc),
         'rule': 'A: every sequence of <=%d statements over a %d-statement output alphabet (after a fixed prelude); B: every '
-                'format string of the field/spec/separator product between two prints and around a device command; '
+                'format string of the field/spec/separator product between two prints and around a device command; C: printf/print '
+                'values that are calls (routines returning out of loops, printing, running a printf of their own) in every position; '
                 'stdout captured under the production binding; distinct_nontrivial = distinct programs whose text matched' % (
                     maxlen, len(alphabet())),
         'exhaustive': True,
-        'sequences': na, 'format_cases': nb,
-        'skipped_str_format_rejects': sum(r['undefined'] for r in ra + rb),
+        'sequences': na, 'format_cases': nb, 'call_value_cases': sum(r['cases'] for r in rc),
+        'skipped_str_format_rejects': sum(r['undefined'] for r in ra + rb + rc),
         'samples': ['print hue print x', 'print 5 on "a" println "a b" printf "{x}:{}" 2.5',
                     'printf "T:{1:>6}\\\\n{0:.2f}" 5 2.5'],
     }
